@@ -403,7 +403,7 @@ def oracle_C11(rs, n, ctx):
             inner = [slice(None)] * nd
             inner[a_] = slice(1, -1)
             f1 = fd[tuple(sl_lo)][tuple(inner)] if False else None
-        if kind == "homog" and len(set(d)) == 1:
+        if kind == "homog" and len(set(d)) == 1 and nsweep >= 2:
             away = np.stack([G[a_] - src[a_] for a_ in range(nd)], axis=-1)
             dist = np.sqrt((away ** 2).sum(axis=-1))
             far = dist > 2.0 * d[0] * math.sqrt(nd)
@@ -438,7 +438,10 @@ def oracle_C12(rs, n, ctx):
                 [("tt(point)", (lambda p=p: tt(p))) for p in pts] + [("model(point)", (lambda p=p: E(p))) for p in pts]:
             try:
                 f()
-            except IndexError as ex:
+            except (IndexError, SystemError) as ex:
+                if isinstance(ex, SystemError) and not isinstance(ex.__cause__, IndexError):
+                    raise
+                # (an IndexError inside a parallel loop surfaces as SystemError caused by IndexError)
                 # known finding F13: a velocity model with a single sample along an axis, evaluated at a point,
                 # reads x[-2] of a one-element axis
                 single = name.startswith("model") and 1 in tuple(info["cells"])
